@@ -283,7 +283,9 @@ func runFunction(prog *Prog, name string, fn *ssa.Function, con *Contract) *Exec
 	ex.entryTmp = st
 	for i, p := range fn.Params {
 		orig := OrigParam
+		ex.w.initialContent = true
 		v := ex.w.freshReg(st, p.Type(), p.Name(), orig)
+		ex.w.initialContent = false
 		if pv, ok := v.(VPtr); ok && i == 0 && sig.Recv() != nil {
 			pv.Nil = "false"
 			v = pv
@@ -1072,6 +1074,10 @@ func (ex *Exec) step(f *Frame, st *State, in ssa.Instruction) bool {
 		v := in.(ssa.Value)
 		u := w.st.fresh("mk", sortU)
 		st.assume(mkNot(mkEq(u, w.zeroU(v.Type()))))
+		if _, isMap := in.(*ssa.MakeMap); isMap {
+			// made by this function (contract expressions: allochere(m))
+			st.assume(app(w.st.declare("alloc_here", []string{sortU}, sortBool), u))
+		}
 		f.regs[v] = VOpaque{T: u}
 	case *ssa.MakeClosure:
 		var bs []Val
